@@ -75,7 +75,8 @@ TD15_QUICK = [('tdigest.rs', 'c15_td_endpoints_1', 'bounded(1 centroid; weights 
               ('tdigest.rs', 'c15_td_merge_empty_backlog_noop', 'bounded(2 centroids)'),
               ('tdigest.rs', 'c15_td_cdf_shape_1', 'bounded(1 centroid; x on j/8)'),
               ('tdigest.rs', 'c15_td_consistent_1', 'bounded(1 centroid, strict knots)'),
-              ('tdigest.rs', 'c15_td_concrete_weighted_grid_q', 'bounded(ONE concrete 3-centroid digest with unequal outer weights; q on j/104): range, monotonicity, cdf(quantile(q)) = q in both tails')]
+              ('tdigest.rs', 'c15_td_concrete_weighted_grid_q', 'bounded(ONE concrete 3-centroid digest with unequal outer weights; q on j/104): range, monotonicity, cdf(quantile(q)) = q in both tails'),
+              ('tdigest.rs', 'c15_td_first_read_tails', 'bounded(one concrete insert still in the backlog): cdf tails / quantile end points / repeated reads as FIRST read through the public wrapper')]
 TD15_THOROUGH = [('tdigest.rs', 'c15_td_endpoints_3', 'bounded(3 centroids)'),
                  ('tdigest.rs', 'c15_td_quantile_shape_1', 'bounded(1 centroid; q on j/32)'),
                  ('tdigest.rs', 'c15_td_quantile_shape_2', 'bounded(2 centroids; q on j/32)'),
